@@ -183,7 +183,7 @@ def scenario_notes(c, quick):
     cases.insert(0, ([[1, b"", 1, b"legal", b"", b"reverse-charge", b"Reverse Charge", b""], [1, b"M01", 1, b"legal", b"", b"pt-saft-exemption", b"Artigo 16", b""]], []))
     lines = ["c04 notes %s %s" % (w(s), w(n)) for s, n in cases]
     res = compare(c, "corr:C04:scenario-notes", lines)
-    fixed = run_oracle(["c04 notes_fixed %s %s" % (w(s), w(n)) for s, n in cases])
+    fixed = run_oracle(["c04 notes %s %s" % (w(s), w(n)) for s, n in cases])
     shown = known = 0
     for (scen, notes), v, f, l in zip(cases, res, fixed, lines):
         c.count("scenario-notes-fixpoint", 1, l)
@@ -196,25 +196,17 @@ def scenario_notes(c, quick):
         if fv and fv[0][1] != fv[0][2] and shown < 3:
             shown += 1
             c.report("the repaired note mechanism of the model is not a fixpoint", {"theorem": "rocq/Fix/ScenarioNotesProofs.v", "notes_case": l}, no_input=True)
-        if v[0][1] != v[0][2]:
-            if reorder_finding(scen):
-                known += 1
-                if known <= 2:
-                    c.report("calculating twice reorders the scenario notes of an invoice", {"notes_case": l, "first": w(v[0][1]), "second": w(v[0][2]),
-                             "clause": "serialising the result, parsing it back and calculating again yields byte-identical JSON (scenario notes removed then re-added)"},
-                             finding_id="C04-scenario-notes-reorder")
-            elif shown < 3:
-                shown += 1
-                c.report("calculating twice changes the notes of an invoice", {"notes_case": l, "first": w(v[0][1]), "second": w(v[0][2]),
-                         "clause": "serialising the result, parsing it back and calculating again yields byte-identical JSON (scenario notes removed then re-added)"})
+        if v[0][1] != v[0][2] and shown < 3:
+            shown += 1
+            c.report("calculating twice changes the notes of an invoice", {"notes_case": l, "first": w(v[0][1]), "second": w(v[0][2]),
+                     "clause": "serialising the result, parsing it back and calculating again yields byte-identical JSON (scenario notes removed then re-added)"})
     # the same on shipped definitions: regime es (tag note, no ExtCode) with add-on pt-saft-v1 (extension note, ExtCode M01)
     r = run_go(["c04 fix " + w(json.dumps(ES_SAFT_DOC))], shards=1)[0]
     c.count("scenario-notes-fixpoint", 1, "es+pt-saft")
     v = parse_wire(r)
     if v and isinstance(v[0], list) and v[0] and v[0][0] == b"diff":
         c.report("recalculating a Spanish reverse-charge invoice with the pt-saft-v1 add-on and exemption M01 swaps its two scenario notes (%s)" % v[0][2].decode(),
-                 {"document": ES_SAFT_DOC, "result": r, "clause": "serialising the result, parsing it back and calculating again yields byte-identical JSON"},
-                 finding_id="C04-scenario-notes-reorder")
+                 {"document": ES_SAFT_DOC, "result": r, "clause": "serialising the result, parsing it back and calculating again yields byte-identical JSON"})
     c.sample({"notes_case": lines[1]}, limit=2)
     return known
 
